@@ -77,10 +77,6 @@ func c18ReadGeom(size int64) {
 	vp.Unwind(20)
 	vp.AllocCap(vp.Bound("alloccap", 48, 96))
 	vp.AllocLimit(limit)
-	if dev.ByteAt(13) == 0 {
-		// KF-C18-1: sectors per cluster = 0: division by zero in Read
-		vp.KnownPanic("KF-C18-1", "filesystem/fat16.Read)")
-	}
 	vp.NoPanic()
 	t0 := c18AllocBegin()
 	fs, err := Read(dev, size, 0, 0)
